@@ -249,6 +249,8 @@ def run(ctx):
 
     # beam patch test ('constant axial strain or curvature for beams'): the member frame is orthonormal
     ctx.attempt(_c10.stored_frame_rule, ctx)
+    # ... and the block that carries the global dofs into the member axes has those axes as rows (right-handed for members of every direction)
+    ctx.attempt(_c10.frame_rule, ctx)
     from . import c04 as _c04
 
     # 'prescribing that field on the boundary and solving': beam structures with connections go through the multiplier system
@@ -259,6 +261,11 @@ def run(ctx):
     ctx.attempt(_mesh_motion_rule, ctx, "R1.11")
     # the patch test of an anisotropic material with tilted axes: stress = (P C P^T) : eps needs the exact change-of-basis matrix
     ctx.attempt(_c10.pmat_rules, ctx)
+    from .c02 import pointwise_inverse_rule as _pointwise_inverse_rule
+    from ..elems import ElemLib as _ElemLib0
+
+    # strains of the patch test are B u with B from invF: the inverse Jacobian of every orientation (mirrored meshes) and of curved elements
+    ctx.attempt(_pointwise_inverse_rule, ctx, _ElemLib0(ctx.repo), "R1.12")
     from ..shared import group_loop_leak_rule as _group_loop_leak_rule
 
     ctx.attempt(_group_loop_leak_rule, ctx, "R1.9", scope=lambda f, _s=("EasyFEA.Simulations",): f.module.name.startswith(_s), min_instances=8)
